@@ -185,7 +185,7 @@ def _(c):
         the configured script object itself, which would then grow with every episode and survive every reset."""
         scripts = (f.self.exitingExcludedRegionGcode, f.self.enteringExcludedRegionGcode)
         return all(f.result is not s_ for s_ in scripts if s_ is not None)
-    c.ensures("C06.result-does-not-alias-the-configured-script", fresh_list, props=("C06", "C10", "C15"))
+    c.ensures("C06.result-does-not-alias-the-configured-script", fresh_list, props=("C06", "C10", "C15", "C05", "C04"))
 
 
 def script_is(result, script):
